@@ -36,6 +36,8 @@ def deck_features(deck):
         feats.add('irrelevant_kw')
     if deck.get('cardorder'):
         feats.add('card_order')
+    if deck.get('plusspell'):
+        feats.add('plus_sense')
     return sorted(feats)
 
 
@@ -99,6 +101,8 @@ def run(chk, decks, clauses, seed, opts_of=None, npts=96):
             adeck.imp_datacards(d, i // 7)         # importances on an IMP:N data card, written as reals
         if i % 5 == 1:
             adeck.irrelevant_keywords(d, rng)      # VOL=, NONU=, TMP=, UNC:N= ... on the cell cards
+        if i % 6 == 4:
+            d['plusspell'] = True                  # '+3': the positive sense written out; '+1.5' for a positive number
         d['pts'] = adeck.grid_points(rng, npts)
         tid = i + 1
         nd[tid] = d
